@@ -401,7 +401,7 @@ def any_(a, axis=None):
     es = [SymBool.of(v).e if isinstance(v, (SymBool, bool, _np.bool_)) else (Sc.of(v) != 0).e for v in _obj(a).ravel()]
     if not es:
         return False
-    return SymBool(z3.simplify(z3.Or(*es)))
+    return SymBool(z3.simplify(z3.Or(*es)) if CTX.simplify else z3.Or(*es))
 
 
 def all_(a, axis=None):
@@ -410,7 +410,7 @@ def all_(a, axis=None):
     es = [SymBool.of(v).e if isinstance(v, (SymBool, bool, _np.bool_)) else (Sc.of(v) != 0).e for v in _obj(a).ravel()]
     if not es:
         return True
-    return SymBool(z3.simplify(z3.And(*es)))
+    return SymBool(z3.simplify(z3.And(*es)) if CTX.simplify else z3.And(*es))
 
 
 # --------------------------------------------------------------------------------------
@@ -961,7 +961,14 @@ class NPFacade(types.ModuleType):
         if name in self._extra:
             return self._extra[name]
         if name in SHIMS:
-            return SHIMS[name]
+            f = SHIMS[name]
+            if CTX.trace_calls and callable(f) and not isinstance(f, type):
+                def traced(*a, _f=f, _n=name, **k):
+                    CTX.calls.append((_n, a))
+                    return _f(*a, **k)
+
+                return traced
+            return f
         real_obj = getattr(_np, name)
         if callable(real_obj) and not isinstance(real_obj, type):
 
